@@ -37,6 +37,18 @@ CLAIMED = {
         text="Well-typed generated programs over the first-order fragment plus a catalogue of documented constructs are evaluated without the checker; every one that evaluates is written to a file and built with the checker in front of the same VM: a rejection, or a different bound value, is a violation keyed on the checker's message. Only programs that evaluate are judged, so the check can never demand more than the statement.",
         note="Trusted: nothing beyond the probe; both sides are real code. Statically ill-typed dead code is not generated in this mode (a static checker may reject it).",
         design="DESIGN.md section 4, C07"),
+    "C09": dict(
+        engine="cli",
+        technique="runtime monitor: history checker over real `ucg build` runs from 3 working directories (exit status, decoded artifact vs by-construction value, TRACE-line evaluation counts per file); cycle runs judged by exit/diagnostic/signal",
+        text="Generated project trees (2..8 files, nested directories, random DAGs, 22 syntactic positions for the import expression, four equivalent path spellings, repeated imports compared with ==, a relative include) are built by the real CLI from the project root, a sibling directory and /, with relative and absolute entry paths; every configuration must succeed with the value the project has by construction and exactly one TRACE line per reachable file. Graphs with a back edge must exit 1 with a cycle diagnostic, without a signal, inside the watchdog.",
+        note="Trusted: one TRACE line per evaluation (observed on stderr, no instrumentation); the project model that computes the expected value.",
+        design="DESIGN.md section 4, C09"),
+    "C16": dict(
+        engine="cli",
+        technique="runtime monitor: differential over CLI histories (each file alone in a fresh process and fresh project copy vs every permutation of the batch, each run twice), per-file sections of the merged stdout/stderr stream + artifact bytes",
+        text="For generated projects mixing entries with out statements, shared libraries, files both built and imported, four kinds of failing files, duplicates on the command line and -r, the outcome of each file alone is the reference; every permutation of up to 4 files (and random permutations beyond) is built in one invocation, twice, and each file's failure status, artifact bytes and the exit status must match the reference.",
+        note="Trusted: the sectioning of the merged output stream by `Building <file>` lines (stdout is line buffered, stderr unbuffered, same pipe).",
+        design="DESIGN.md section 4, C16"),
     "C10": dict(
         engine="probe",
         technique="runtime monitor: prefix-consistency differential (every program vs each of its statement prefixes), reference-interpreter oracle on name-collision templates, reserved-word list read from the reference",
